@@ -1,10 +1,108 @@
 import SV.Driver.Util
-/- svdriver_c17: line protocol for the C17 model (stub until the model is built). -/
+import SV.Model.FuseMgr
+/-
+svdriver_c17: line protocol for the C17 model (SV/Model/FuseMgr.lean).
+  reset                                   fresh manager, empty store, instance counter 0
+  init <cfg> <ok|parse|cfgfunc|construct> <-|mp,mp,...>     (mountpoints whose fs.Mount fails)
+  mount <mp> <lab> <ok|fail>
+  check <mp> <lab> <ok|fail>
+  unmount <mp> <ok|fail> <0|1>            (1: the path is an OS mountpoint)
+  close
+  restart
+Every op answers
+  <ok|err|panic> st=<wait|ready|notready> cur=<fs|-> cfg=<n|-> calls=<..> store=<mp:lab:cfg,..> fsmap=<mp:fs,..> live=<fs:mp,..>
+with calls in call order (F<cfg>:<r> configFunc, N<fs>:<cfg> constructed, NX<cfg> construction
+failed, M<fs>:<mp>:<lab>:<r>, C<fs>:<mp>:<lab>:<r>, U<fs>:<mp>:<r>), store and fsmap in key order,
+live sorted.
+-/
 namespace SV.Driver.C17
+open SV.Driver SV.FuseMgr
 
-def step (s : Unit) : List String → Unit × String
-  | _ => (s, "bad-op")
+def showOk (b : Bool) : String := if b then "ok" else "fail"
+
+def showCall : Call → String
+  | .cfgFunc c ok => s!"F{c}:{showOk ok}"
+  | .newFs f c => s!"N{f}:{c}"
+  | .newFsFail c => s!"NX{c}"
+  | .mount f mp l ok => s!"M{f}:{mp}:{l}:{showOk ok}"
+  | .check f mp l ok => s!"C{f}:{mp}:{l}:{showOk ok}"
+  | .unmount f mp ok => s!"U{f}:{mp}:{showOk ok}"
+
+def showList (l : List String) : String := if l.isEmpty then "-" else ",".intercalate l
+
+def showOpt : Option Nat → String
+  | none => "-"
+  | some n => toString n
+
+def pairLe (a b : Nat × Nat) : Bool := a.1 < b.1 || (a.1 == b.1 && a.2 ≤ b.2)
+
+def insertPair (x : Nat × Nat) : List (Nat × Nat) → List (Nat × Nat)
+  | [] => [x]
+  | y :: ys => if pairLe x y then x :: y :: ys else y :: insertPair x ys
+
+def sortPairs (l : List (Nat × Nat)) : List (Nat × Nat) := l.foldr insertPair []
+
+def showOut (o : Out) : String :=
+  let r := match o.resp with
+    | .ok => "ok" | .err => "err" | .panic => "panic"
+  let st := match o.st.status with
+    | .waitInit => "wait" | .ready => "ready" | .notReady => "notready"
+  let store := showList (o.st.store.map fun e => s!"{e.1}:{e.2.labels}:{e.2.cfg}")
+  let fsmap := showList (o.st.fsMap.map fun e => s!"{e.1}:{e.2}")
+  let live := showList ((sortPairs o.st.live).map fun e => s!"{e.1}:{e.2}")
+  s!"{r} st={st} cur={showOpt o.st.curFs} cfg={showOpt o.st.cfg} calls={showList (o.calls.map showCall)} store={store} fsmap={fsmap} live={live}"
+
+def parseOk? : String → Option Bool
+  | "ok" => some true
+  | "fail" => some false
+  | _ => none
+
+def parseBit? : String → Option Bool
+  | "0" => some false
+  | "1" => some true
+  | _ => none
+
+def parseStage? : String → Option Stage
+  | "ok" => some .ok
+  | "parse" => some .parse
+  | "cfgfunc" => some .cfgfunc
+  | "construct" => some .construct
+  | _ => none
+
+def parseMps? (s : String) : Option (List Nat) :=
+  if s = "-" then some [] else (s.splitOn ",").mapM parseNat?
+
+def stepLine (s : St) : List String → Option Out
+  | ["reset"] => some ⟨{}, .ok, []⟩
+  | ["init", c, st, fl] => do
+    let c ← parseNat? c
+    let st ← parseStage? st
+    let fl ← parseMps? fl
+    some (SV.FuseMgr.step s (.init c st (fun mp => fl.contains mp)))
+  | ["mount", mp, l, ok] => do
+    let mp ← parseNat? mp
+    let l ← parseNat? l
+    let ok ← parseOk? ok
+    some (SV.FuseMgr.step s (.mount mp l ok))
+  | ["check", mp, l, ok] => do
+    let mp ← parseNat? mp
+    let l ← parseNat? l
+    let ok ← parseOk? ok
+    some (SV.FuseMgr.step s (.check mp l ok))
+  | ["unmount", mp, ok, os] => do
+    let mp ← parseNat? mp
+    let ok ← parseOk? ok
+    let os ← parseBit? os
+    some (SV.FuseMgr.step s (.unmount mp ok os))
+  | ["close"] => some (SV.FuseMgr.step s .close)
+  | ["restart"] => some (SV.FuseMgr.step s .restart)
+  | _ => none
+
+def step (s : St) (ws : List String) : St × String :=
+  match stepLine s ws with
+  | some o => (o.st, showOut o)
+  | none => (s, "bad-op")
 
 end SV.Driver.C17
 
-def main : IO Unit := SV.Driver.loop SV.Driver.C17.step ()
+def main : IO Unit := SV.Driver.loop SV.Driver.C17.step {}
